@@ -15,7 +15,7 @@ class C40(core.Prop):
     sizes = {"quick": 30, "thorough": 800}
     technique = ("property-based differential testing (Hypothesis): the complete executions explored by simgrid-mc with reduction odpor vs "
                  "those explored without reduction, compared up to the checker's own dependency relation (Mazurkiewicz classes)")
-    rule = ("Synchronisation programs (5 in 6 from vf/mcprog.py deadlock_free_programs: deadlock-free by construction; the others from vf/syncgen.py, contention profile; model-checker subset: mutex incl. try_lock, semaphore, condition "
+    rule = ("Synchronisation programs (half from mcprog.many_actor_programs: 4-5 actors x 1-2 operations in a generated creation order, semaphores of capacity 0/1 with release/acquire chains across actors, lock / try_lock mixes; a third from mcprog.deadlock_free_programs: 2-3 actors; the others from vf/syncgen.py, contention profile; model-checker subset: mutex incl. try_lock, semaphore, condition "
             "variable, barrier, blocking mailbox put/get; 2-3 actors x <=6 operations, thorough 4 x 8; no multi-valued transition) that "
             "have no deadlock and at most 300 (thorough 1500) maximal paths according to the reference interleaving semantics "
             "(vf/refsem.py).  simgrid-mc runs them (DFS) with reduction none and with reduction odpor, --log=mc_dfs.thres:verbose; every "
@@ -57,7 +57,8 @@ class C40(core.Prop):
                 return None
             return ex.npaths
         # construction rather than rejection: the search only sees programs of the domain
-        exact = st.one_of(safe, safe, safe, safe, safe, contention).filter(lambda sc: (paths(sc) or 0) >= 2 and paths(sc) <= limit)
+        many = mcprog.many_actor_programs()      # 4-5 actors x 1-2 operations, generated creation order, semaphore chains
+        exact = st.one_of(safe, safe, many, many, many, contention).filter(lambda sc: (paths(sc) or 0) >= 2 and paths(sc) <= limit)
         sampled = large.filter(lambda sc: limit < (paths(sc) or 0) <= 40000)
         picks = st.lists(st.lists(st.integers(0, 5), min_size=70, max_size=70), min_size=30, max_size=30)
         return st.one_of(exact.map(lambda sc: {"program": sc, "mode": "exact"}),
@@ -81,6 +82,15 @@ class C40(core.Prop):
             oc.invalid = True
             return oc
         oc.labels.append("mode-" + mode)
+        progs = [a["ops"] for a in sc["actors"]]
+        oc.labels.append("actors>=4" if len(progs) >= 4 else "actors=%d" % len(progs))
+        rel = [{o[1] for o in l if o[0] == "release"} for l in progs]
+        if any(any(o[0] == "acquire" for o in l[:i]) for l in progs for i, o2 in enumerate(l) if o2[0] == "release"):
+            oc.labels.append("sem-release-chain")
+        if any(sum(1 for r in rel if x in r) >= 2 for x in set().union(*rel)):
+            oc.labels.append("sem-released-by-several-actors")
+        if any(o[0] == "try_lock" for l in progs for o in l):
+            oc.labels.append("has-try-lock")
         oc.evals = 0
         runs = {}
         for red in (("none", "odpor") if mode == "exact" else ("odpor",)):
@@ -209,6 +219,11 @@ def _sc(objects, actors):
 
 
 FIXED = [
+    # 4 actors, semaphores s, t of capacity 0: a1 releases s, a2 releases t, a3 acquires t then releases s, a4 acquires s.  a4's SEM_WAIT
+    # races with the SEM_UNLOCK(s) of a1 and of a3, and a2's SEM_UNLOCK(t) sits between them in the clock vector: 3 classes
+    {"program": _sc({"sem": [0, 0]}, [[["release", 0]], [["release", 1]], [["acquire", 1], ["release", 0]], [["acquire", 0]]]), "mode": "exact"},
+    {"program": _sc({"sem": [0], "mutex": [{"recursive": False}]},
+                    [[["release", 0]], [["lock", 0], ["unlock", 0]], [["lock", 0], ["unlock", 0], ["release", 0]], [["acquire", 0]]]), "mode": "exact"},
     {"program": _sc({"mutex": [{"recursive": False}]}, [[["lock", 0], ["unlock", 0]], [["lock", 0], ["unlock", 0]]])},
     {"program": _sc({"mutex": [{"recursive": False}]}, [[["try_lock", 0], ["unlock_if", 0, 0]], [["try_lock", 0], ["unlock_if", 0, 0]],
                                                         [["lock", 0], ["unlock", 0]]])},
